@@ -79,6 +79,19 @@ def prepare_dir(d, fcase):
     if kind == "symlink-to-file":
         os.symlink("keep.txt", os.path.join(d, "lnk"))
         return "lnk"
+    if kind in ("symlink-in-subdir-relative", "symlink-in-subdir-via-absolute-path", "symlink-chain", "symlink-to-parent-file"):
+        # links whose stored target is RELATIVE (to the link's own directory, not to the working directory), named from
+        # somewhere else: they all lead to an existing file, which must survive
+        open(os.path.join(d, "sub", "real.json"), "w").write("{\"precious\": true}\n")
+        if kind == "symlink-chain":
+            os.symlink("real.json", os.path.join(d, "sub", "hop"))
+            os.symlink(os.path.join("sub", "hop"), os.path.join(d, "chain"))
+            return "chain"
+        if kind == "symlink-to-parent-file":
+            os.symlink(os.path.join("..", "keep.txt"), os.path.join(d, "sub", "up"))
+            return os.path.join("sub", "up")
+        os.symlink("real.json", os.path.join(d, "sub", "wallet.json"))
+        return os.path.join("sub", "wallet.json") if kind == "symlink-in-subdir-relative" else os.path.join(d, "sub", "wallet.json")
     if kind == "dangling-symlink":
         os.symlink("nowhere.json", os.path.join(d, "dangling"))
         return "dangling"
@@ -413,7 +426,8 @@ def install_probes():
 
 # ------------------------------------------------------------------ generators
 FILE_KINDS = ["none", "none", "none", "none", "new", "new", "new-in-subdir", "new-absolute", "existing", "existing-absolute", "directory",
-              "symlink-to-file", "dangling-symlink", "missing-parent", "file-as-parent", "empty", "dot"]
+              "symlink-to-file", "dangling-symlink", "missing-parent", "file-as-parent", "empty", "dot",
+              "symlink-in-subdir-relative", "symlink-in-subdir-via-absolute-path", "symlink-chain", "symlink-to-parent-file"]
 ACCOUNTS = [("valid", "0"), ("valid", "1"), ("valid", "7"), ("valid", "44"), ("valid", "49"), ("valid", "84"), ("valid", "83696968"), ("valid", "1000000"),
             ("valid", str(H - 2)), ("bound", str(H - 1)), ("bound", str(H)), ("bound", "-1"),
             ("junk", "abc"), ("junk", "1.5"), ("junk", ""), ("lenient", "+3"), ("lenient", " 4"), ("lenient", "1_0"), ("bound", str(1 << 32))]
